@@ -1115,39 +1115,41 @@ theorem go_values : ∀ (xs : List Json) (ops : List PatchOp), patchOpsOfJson.go
       | err => rw [h1, h2] at h; cases h
       | panic => rw [h1, h2] at h; cases h
       | ok path =>
-        cases h3 : patchOpsOfJson.go r with
-        | err => rw [h1, h2, h3] at h; cases h
-        | panic => rw [h1, h2, h3] at h; cases h
-        | ok rest =>
-          rw [h1, h2, h3] at h
-          simp only [Outcome.bind_ok] at h
-          injection h with h
-          subst h
-          intro o ho
-          rcases List.mem_cons.1 ho with rfl | ho
-          · simp only
-            cases hk : alookup "value" kvs with
-            | none => rfl
-            | some v =>
-              simp only [Option.getD_some, valueOK, Bool.and_eq_true, Bool.not_eq_true']
-              exact ⟨⟨isVoid_of_voidFree (alookup_voidFree hk hv.1), alookup_listDoc hk hl.1⟩,
-                alookup_wf hk hw.1.2⟩
-          · exact go_values r rest h3 hw.2 hl.2 hv.2 o ho
-  | .null :: r, ops, h, hw, hl, hv => by
-    simp only [wfList, listDocList, Yaml.voidFreeList, Bool.and_eq_true] at hw hl hv
-    simp only [patchOpsOfJson.go] at h
-    cases h3 : patchOpsOfJson.go r with
-    | err => rw [h3] at h; cases h
-    | panic => rw [h3] at h; cases h
-    | ok rest =>
-      rw [h3] at h
-      simp only [Outcome.bind_ok] at h
-      injection h with h
-      subst h
-      intro o ho
-      rcases List.mem_cons.1 ho with rfl | ho
-      · rfl
-      · exact go_values r rest h3 hw.2 hl.2 hv.2 o ho
+        cases h4 : patchOpsOfJson.valueField kvs op with
+        | err => rw [h1, h2] at h; simp only [Outcome.bind_ok] at h; rw [h4] at h; cases h
+        | panic => rw [h1, h2] at h; simp only [Outcome.bind_ok] at h; rw [h4] at h; cases h
+        | ok value =>
+          cases h3 : patchOpsOfJson.go r with
+          | err => rw [h1, h2] at h; simp only [Outcome.bind_ok] at h; rw [h4, h3] at h; cases h
+          | panic => rw [h1, h2] at h; simp only [Outcome.bind_ok] at h; rw [h4, h3] at h; cases h
+          | ok rest =>
+            rw [h1, h2] at h
+            simp only [Outcome.bind_ok] at h
+            rw [h4, h3] at h
+            simp only [Outcome.bind_ok] at h
+            injection h with h
+            subst h
+            intro o ho
+            rcases List.mem_cons.1 ho with rfl | ho
+            · simp only
+              unfold patchOpsOfJson.valueField at h4
+              cases hk : alookup "value" kvs with
+              | none =>
+                rw [hk] at h4
+                simp only at h4
+                split at h4
+                · cases h4
+                · injection h4 with h4; subst h4; rfl
+              | some v =>
+                rw [hk] at h4
+                simp only at h4
+                injection h4 with h4
+                subst h4
+                simp only [valueOK, Bool.and_eq_true, Bool.not_eq_true']
+                exact ⟨⟨isVoid_of_voidFree (alookup_voidFree hk hv.1), alookup_listDoc hk hl.1⟩,
+                  alookup_wf hk hw.1.2⟩
+            · exact go_values r rest h3 hw.2 hl.2 hv.2 o ho
+  | .null :: r, ops, h, _, _, _ => by simp [patchOpsOfJson.go] at h
   | .void :: r, ops, h, _, _, _ => by simp [patchOpsOfJson.go] at h
   | .bool _ :: r, ops, h, _, _, _ => by simp [patchOpsOfJson.go] at h
   | .num _ :: r, ops, h, _, _, _ => by simp [patchOpsOfJson.go] at h
@@ -1160,7 +1162,6 @@ theorem patchOpsOfJson_values {doc : Json} {ops : List PatchOp} (h : patchOpsOfJ
     (hw : doc.wf = true) (hl : doc.listDoc = true) (hv : Yaml.voidFree doc = true) :
     ∀ o ∈ ops, valueOK o.value = true := by
   cases doc with
-  | null => simp only [patchOpsOfJson] at h; injection h with h; subst h; simp
   | arr t xs =>
     simp only [patchOpsOfJson] at h
     simp only [Json.wf] at hw
